@@ -6,13 +6,20 @@ use crate::{
     parser_error::LuaParseError,
 };
 
-use super::{expect_token, if_token_bump, parse_block};
+use super::{enter_level, expect_token, if_token_bump, parse_block};
 
 pub fn parse_expr(p: &mut LuaParser) -> ParseResult {
     parse_sub_expr(p, 0)
 }
 
 fn parse_sub_expr(p: &mut LuaParser, limit: i32) -> ParseResult {
+    enter_level(p)?;
+    let result = parse_sub_expr_impl(p, limit);
+    p.leave_level();
+    result
+}
+
+fn parse_sub_expr_impl(p: &mut LuaParser, limit: i32) -> ParseResult {
     let uop = LuaOpKind::to_unary_operator(p.current_token());
     let mut cm = if uop != UnaryOperator::OpNop {
         let m = p.mark(LuaSyntaxKind::UnaryExpr);
